@@ -409,7 +409,9 @@ class Walker:
         elif isinstance(target, (ast.Attribute, ast.Subscript)):
             self._kill(st, target)
             st.facts[norm(target)] = val
-            st.add(Event("assign", node or target, norm(target), self.frame, val))
+            ev = Event("assign", node or target, norm(target), self.frame, val)
+            ev.defs = dict(st.defs)
+            st.add(ev)
         elif isinstance(target, (ast.Tuple, ast.List)):
             src = defexpr
             if src is None and isinstance(node, ast.Assign):
